@@ -250,6 +250,198 @@ Proof.
 Qed.
 
 (* ------------------------------------------------------------------ *)
+(* integers below 2^53 go through the f64 route unharmed *)
+
+Arguments N.log2 : simpl never.
+Arguments Z.sub : simpl never.
+Arguments Z.max : simpl never.
+Arguments Z.min : simpl never.
+Arguments Z.to_N : simpl never.
+Arguments Z.of_N : simpl never.
+
+Lemma pow2_pos : forall k, 0 < 2 ^ k.
+Proof. intro k. apply N.neq_0_lt_0, N.pow_nonzero. discriminate. Qed.
+
+Lemma round_half_even_exact : forall k b, b <> 0 -> round_half_even (k * b) b = k.
+Proof.
+  intros k b Hb. unfold round_half_even.
+  rewrite N.div_mul, N.mod_mul by assumption.
+  change (2 * 0) with 0.
+  destruct (N.ltb_spec b 0); [lia|].
+  destruct (N.eqb_spec 0 b); [lia|]. reflexivity.
+Qed.
+
+(* rounding a value n * 2^(a-c) that fits 53 bits is exact *)
+Lemma rnd_pow2 : forall n a c, 0 < n -> n < 2 ^ 53 -> c <= a -> a - c + N.log2 n < 1024 ->
+  rnd (n * 2 ^ a) (2 ^ c) =
+  FFin (n * 2 ^ (52 - N.log2 n)) (Z.of_N (N.log2 n) + Z.of_N a - Z.of_N c - 52).
+Proof.
+  intros n a c Hn0 Hn Hca Hov.
+  set (L := N.log2 n) in *.
+  assert (HL : L < 53) by (apply N.log2_lt_pow2; assumption).
+  destruct (N.log2_spec n Hn0) as [HLlo HLhi]. fold L in HLlo, HLhi.
+  pose proof (pow2_pos a) as Pa. pose proof (pow2_pos c) as Pc.
+  unfold rnd.
+  destruct (N.eqb_spec (n * 2 ^ a) 0) as [E|_]; [nia|].
+  destruct (N.eqb_spec (2 ^ c) 0) as [E|_]; [lia|].
+  rewrite N.log2_mul_pow2 by lia. rewrite N.log2_pow2 by lia. fold L.
+  set (d := a + L - c).
+  assert (He0 : (Z.of_N (a + L) - Z.of_N c)%Z = Z.of_N d) by (unfold d; lia).
+  rewrite He0.
+  unfold scale_frac at 1.
+  assert ((0 <=? Z.of_N d)%Z = true) as -> by lia.
+  rewrite N2Z.id.
+  assert (Hden : 2 ^ c * 2 ^ d = 2 ^ (a + L)).
+  { rewrite <- N.pow_add_r. f_equal. unfold d. lia. }
+  rewrite Hden.
+  assert (Hcmp : (2 ^ (a + L) <=? n * 2 ^ a) = true).
+  { apply N.leb_le. rewrite N.pow_add_r. nia. }
+  rewrite Hcmp.
+  assert (Hu : Z.max (Z.of_N d - 52) (-1074) = (Z.of_N d - 52)%Z) by lia.
+  rewrite Hu.
+  assert (Hm : forall x y, round_half_even x y = n * 2 ^ (52 - L) ->
+          (let m := round_half_even x y in
+           if (1024 <=? Z.of_N (N.log2 m) + (Z.of_N d - 52))%Z then FInf else FFin m (Z.of_N d - 52)) =
+          FFin (n * 2 ^ (52 - L)) (Z.of_N L + Z.of_N a - Z.of_N c - 52)).
+  { intros x y E. cbv zeta. rewrite E. rewrite N.log2_mul_pow2 by lia. fold L.
+    assert ((1024 <=? Z.of_N (52 - L + L) + (Z.of_N d - 52))%Z = false) as ->.
+    { apply Z.leb_gt. unfold d. lia. }
+    f_equal. unfold d. lia. }
+  unfold scale_frac.
+  destruct (Z.leb_spec 0 (Z.of_N d - 52)) as [Hu0|Hu0].
+  - apply Hm.
+    assert (E1 : Z.to_N (Z.of_N d - 52) = d - 52) by lia. rewrite E1.
+    assert (E2 : 2 ^ c * 2 ^ (d - 52) = 2 ^ (a + L - 52)).
+    { rewrite <- N.pow_add_r. f_equal. unfold d. lia. }
+    rewrite E2.
+    assert (E3 : n * 2 ^ a = n * 2 ^ (52 - L) * 2 ^ (a + L - 52)).
+    { rewrite <- N.mul_assoc, <- N.pow_add_r. do 2 f_equal. unfold d in *. lia. }
+    rewrite E3. apply round_half_even_exact. apply N.pow_nonzero. discriminate.
+  - apply Hm.
+    assert (E1 : Z.to_N (- (Z.of_N d - 52)) = 52 - d) by lia. rewrite E1.
+    assert (E3 : n * 2 ^ a * 2 ^ (52 - d) = n * 2 ^ (52 - L) * 2 ^ c).
+    { rewrite <- !N.mul_assoc, <- !N.pow_add_r. do 2 f_equal. unfold d in *. lia. }
+    rewrite E3. apply round_half_even_exact. apply N.pow_nonzero. discriminate.
+Qed.
+
+Lemma UMAXF_val : UMAXF = FFin (2 ^ 53) 11.
+Proof. vm_compute. reflexivity. Qed.
+
+Lemma f_of_u64_exact : forall n, 0 < n -> n < 2 ^ 53 ->
+  f_of_u64 n = FFin (n * 2 ^ (52 - N.log2 n)) (Z.of_N (N.log2 n) - 52).
+Proof.
+  intros n H0 H1. unfold f_of_u64.
+  assert (HL : N.log2 n < 53) by (apply N.log2_lt_pow2; assumption).
+  pose proof (rnd_pow2 n 0 0 H0 H1 ltac:(lia) ltac:(lia)) as E.
+  rewrite N.pow_0_r, N.mul_1_r in E. rewrite E. f_equal. lia.
+Qed.
+
+Lemma split_exact : forall n, 0 < n -> n < 2 ^ 53 ->
+  split_int (n * 2 ^ (52 - N.log2 n)) (Z.of_N (N.log2 n) - 52) = (n, false, false).
+Proof.
+  intros n H0 H1. set (L := N.log2 n).
+  assert (HL : L < 53) by (apply N.log2_lt_pow2; assumption).
+  unfold split_int.
+  destruct (Z.leb_spec 0 (Z.of_N L - 52)) as [H|H].
+  - assert (L = 52) as -> by lia. change (52 - 52) with 0. change (Z.of_N 52 - 52)%Z with 0%Z.
+    change (Z.to_N 0) with 0. rewrite N.pow_0_r, !N.mul_1_r. reflexivity.
+  - assert (E : Z.to_N (- (Z.of_N L - 52)) = 52 - L) by lia. rewrite E.
+    assert (Hp : 2 ^ (52 - L) <> 0) by (apply N.pow_nonzero; discriminate).
+    rewrite N.div_mul, N.mod_mul by assumption.
+    change (0 =? 0) with true. cbn [negb]. change (2 * 0) with 0.
+    destruct (N.leb_spec (2 ^ (52 - L)) 0); [lia|reflexivity].
+Qed.
+
+(* the whole pipeline on an integer below 2^53 *)
+Lemma round_small_int : forall mode sg n, n < 2 ^ 53 ->
+  q_round mode (mkrat sg (Small n) (Small 1)) =
+  Ok (mkrat (sg && negb (n =? 0)) (of_N (n * (W - 1))) (Small (W - 1))).
+Proof.
+  intros mode sg n Hn. unfold q_round, into_f64. cbn [rnum is_definitely_zero].
+  destruct (N.eqb_spec n 0) as [->|Hnz].
+  - cbn [bind]. rewrite andb_false_r. destruct mode; vm_compute; reflexivity.
+  - assert (H0 : 0 < n) by lia.
+    unfold simplify. unfold dval at 1. cbn [rden val]. change (1 =? 1) with true. cbn [bind rneg rnum rden as_f64].
+    set (L := N.log2 n).
+    assert (HL : L < 53) by (apply N.log2_lt_pow2; assumption).
+    rewrite (f_of_u64_exact n H0 Hn). fold L.
+    assert (E1 : f_of_u64 1 = FFin (2 ^ 52) (-52)) by (vm_compute; reflexivity).
+    rewrite E1.
+    (* division by 1.0 *)
+    assert (Ediv : f_div (FFin (n * 2 ^ (52 - L)) (Z.of_N L - 52)) (FFin (2 ^ 52) (-52)) =
+                   FFin (n * 2 ^ (52 - L)) (Z.of_N L - 52)).
+    { unfold f_div. change (2 ^ 52 =? 0) with false. cbv iota.
+      assert (Hd : (Z.of_N L - 52 - -52 = Z.of_N L)%Z) by lia. rewrite Hd.
+      assert ((0 <=? Z.of_N L)%Z = true) as -> by lia. rewrite N2Z.id.
+      assert (Hx : n * 2 ^ (52 - L) * 2 ^ L = n * 2 ^ 52).
+      { rewrite <- N.mul_assoc, <- N.pow_add_r. do 2 f_equal. lia. }
+      rewrite Hx.
+      pose proof (rnd_pow2 n 52 52 H0 Hn ltac:(lia) ltac:(fold L; lia)) as E. fold L in E.
+      rewrite E. f_equal. lia. }
+    rewrite Ediv.
+    (* floor / ceil / round of an integer *)
+    assert (Ernd : f_round mode (sg, FFin (n * 2 ^ (52 - L)) (Z.of_N L - 52)) = (sg, FFin n 0)).
+    { unfold f_round. unfold L. rewrite (split_exact n H0 Hn).
+      rewrite !andb_false_r. destruct mode; reflexivity. }
+    rewrite Ernd.
+    (* back to a rational *)
+    unfold from_f64. cbn [f_is_pos]. rewrite UMAXF_val.
+    assert (Emul : f_mul (FFin n 0) (FFin (2 ^ 53) 11) = FFin (n * 2 ^ (52 - L)) (Z.of_N L + 12)).
+    { unfold f_mul, frac_of. change (0 + 11)%Z with 11%Z. change (0 <=? 11)%Z with true. cbv iota.
+      change (Z.to_N 11) with 11.
+      assert (Hx : n * 2 ^ 53 * 2 ^ 11 = n * 2 ^ 64).
+      { rewrite <- N.mul_assoc, <- N.pow_add_r. reflexivity. }
+      rewrite Hx. change (rnd (n * 2 ^ 64) 1) with (rnd (n * 2 ^ 64) (2 ^ 0)).
+      pose proof (rnd_pow2 n 64 0 H0 Hn ltac:(lia) ltac:(fold L; lia)) as E. fold L in E.
+      rewrite E. f_equal. lia. }
+    rewrite Emul.
+    assert (Eu : to_u128 (FFin (n * 2 ^ (52 - L)) (Z.of_N L + 12)) = n * W).
+    { unfold to_u128, split_int.
+      assert ((0 <=? Z.of_N L + 12)%Z = true) as -> by lia.
+      assert (Z.to_N (Z.of_N L + 12) = L + 12) as -> by lia.
+      assert (Hx : n * 2 ^ (52 - L) * 2 ^ (L + 12) = n * W).
+      { rewrite <- N.mul_assoc, <- N.pow_add_r. rewrite W_pow. do 2 f_equal. lia. }
+      rewrite Hx. apply N.min_l.
+      assert (W * 2 ^ 53 <= 2 ^ 128 - 1) by (vm_compute; discriminate).
+      assert (0 < W) by reflexivity. nia. }
+    rewrite Eu.
+    rewrite N.mod_mul, N.div_mul by discriminate.
+    rewrite N.add_0_l.
+    assert ((n =? 0) = false) as -> by lia. reflexivity.
+Qed.
+
+Lemma spec_core_one : forall mode z, spec_core mode z 1 = z.
+Proof.
+  intros mode z. unfold spec_core. destruct mode.
+  - apply Z.div_1_r.
+  - rewrite Z.div_1_r. lia.
+  - destruct (Z.ltb_spec z 0).
+    + assert (E : ((2 * - z + 1) / (2 * 1) = - z)%Z).
+      { symmetry. apply Z.div_unique with (r := 1%Z); lia. }
+      rewrite E. lia.
+    + symmetry. apply Z.div_unique with (r := 1%Z); lia.
+Qed.
+
+Lemma round_except_known_lemma : forall mode q, rat_wf q = true -> known_C10_float q = false ->
+  exists r, q_round mode q = Ok r /\ rat_is_Z r (round_spec mode q) = true.
+Proof.
+  intros mode [sg [n|vn] [d|vd]] Hwf Hk; unfold known_C10_float in Hk; cbn [rnum rden is_small andb negb] in Hk; try discriminate.
+  apply negb_false_iff in Hk. apply andb_true_iff in Hk. destruct Hk as [Hd Hn].
+  unfold dval in Hd. cbn [rden val] in Hd. unfold nval in Hn. cbn [rnum val] in Hn.
+  apply N.eqb_eq in Hd. subst d. apply N.ltb_lt in Hn.
+  rewrite (round_small_int mode sg n Hn). eexists; split; [reflexivity|].
+  rewrite round_spec_core.
+  change (dval {| rneg := sg; rnum := Small n; rden := Small 1 |}) with 1. change (Z.of_N 1) with 1%Z. rewrite spec_core_one.
+  unfold rat_is_Z, rat_num_Z, nval, dval. cbn [rnum rden rneg val]. rewrite val_of_N.
+  change (W - 1 =? 0) with false. cbn [negb andb]. apply Z.eqb_eq.
+  destruct sg; cbn [andb].
+  - destruct (N.eqb_spec n 0) as [->|Hnz]; cbn [negb].
+    + reflexivity.
+    + lia.
+  - lia.
+Qed.
+
+(* ------------------------------------------------------------------ *)
 (* summary statements used by Properties/C10.v *)
 
 Lemma refutes_exists : forall mode q, refutes mode q = true ->
